@@ -644,6 +644,9 @@ func (r *recorder) After(c *vunix.Call) {
 									ev &^= unix.EPOLLIN | unix.EPOLLPRI
 								}
 								c.EvList[i].Events = ev
+								// coherent with what the loop is told: the connection IS broken from now on (a write
+								// issued later, e.g. from OnClose, fails instead of reaching a peer that is still there)
+								_ = unix.Shutdown(int(c.EvList[i].Fd), unix.SHUT_RDWR)
 								r.injected = append(r.injected, fmt.Sprintf("evmask#%d %s", k, in.kind))
 							}
 						}
